@@ -635,8 +635,11 @@ func checkC12(c *Ctx) {
 
 	// ---- R12e who may refuse
 	allowedErr := map[string]bool{}
-	for _, n := range []string{"resolvePathParamFields", "validateFieldCoverage", "(*Generator).buildRPCRouteConfig", "(*Generator).generateRouteEntry"} {
-		allowedErr["tsservergen."+n] = true
+	for _, n := range []string{"resolvePathParamFields", "validateFieldCoverage", "Generator.buildRPCRouteConfig", "Generator.generateRouteEntry"} {
+		// resolved through Prog.Func, so that a renamed function keeps its place in the table
+		if f := c.P.Func("internal/tsservergen", n); f != nil {
+			allowedErr[FuncName(f)] = true
+		}
 	}
 	for _, rel := range []string{"internal/tsclientgen", "internal/tscommon", "internal/tsservergen", "internal/openapiv3"} {
 		pk := c.P.Pkg(rel)
